@@ -80,3 +80,57 @@ package tbtc
 //@     requires approvePeriodStartBlock > approvePrecedencePeriodStartBlock && approvePeriodStartBlock <= 4611686018427387904
 //@     modifies ghost.now, ghost.ctxDone, alloc
 //@     assert call:DistributedKeyGenerationChain.ApproveDKGResult : ghost.now >= ite(memberIndex == result.SubmitterMemberIndex, approvePrecedencePeriodStartBlock, approvePeriodStartBlock + (memberIndex - 1) * dkgResultApprovalDelayStepBlocks)
+
+// ---------------------------------------------------------------------------
+// C23: coordination windows
+
+//@ ghost lastWindowBlock int
+
+//@ func newCoordinationWindow
+//@   property C23
+//@   modifies alloc
+//@   ensures result != nil && !old(allocated(result)) && result.coordinationBlock == coordinationBlock
+
+//@ func coordinationWindow.index
+//@   property C23
+//@   ensures (result > 0) <==> (cw.coordinationBlock % coordinationFrequencyBlocks == 0 && cw.coordinationBlock > 0)
+//@   ensures result > 0 ==> result * coordinationFrequencyBlocks == cw.coordinationBlock
+//@   ensures coordinationFrequencyBlocks == 900
+
+//@ func coordinationWindow.isAfter
+//@   property C23
+//@   ensures result <==> (other == nil || cw.coordinationBlock > other.coordinationBlock)
+
+// The callback is the effect: a window is "started" when onWindowFn is invoked.
+//@ assume func watchCoordinationWindows:onWindowFn
+//@   requires [window-at-positive-multiple] arg0 != nil && arg0.coordinationBlock % 900 == 0 && arg0.coordinationBlock > 0
+//@   requires [window-strictly-later-than-any-started] arg0.coordinationBlock > ghost.lastWindowBlock
+//@   modifies ghost.lastWindowBlock
+//@   ensures ghost.lastWindowBlock == arg0.coordinationBlock
+
+//@ func watchCoordinationWindows
+//@   property C23
+//@   requires ghost.lastWindowBlock == 0
+//@   modifies ghost.lastWindowBlock, ghost.now, ghost.ctxDone, alloc
+//@   loop 1 invariant (lastWindow == nil && ghost.lastWindowBlock == 0) || (lastWindow != nil && lastWindow.coordinationBlock == ghost.lastWindowBlock)
+
+// ---------------------------------------------------------------------------
+// C22: coordination action checklist and leader
+
+//@ func coordinationExecutor.getActionsChecklist
+//@   property C22
+//@   deterministic
+//@   ensures windowIndex == 0 ==> len(result) == 0
+//@   ensures [redemption-first] windowIndex > 0 ==> len(result) >= 1 && result[0] == ActionRedemption
+//@   ensures [length] windowIndex > 0 ==> len(result) == 1 + ite(windowIndex % 4 == 0, 3, 0) + ite(rngFloat(wrap_i64(@be64(seed[0:8])), 0) < coordinationHeartbeatProbability, 1, 0)
+//@   ensures [every-fourth-window] windowIndex > 0 && windowIndex % 4 == 0 ==> result[1] == ActionDepositSweep && result[2] == ActionMovedFundsSweep && result[3] == ActionMovingFunds
+//@   ensures [heartbeat-last] windowIndex > 0 && rngFloat(wrap_i64(@be64(seed[0:8])), 0) < coordinationHeartbeatProbability ==> result[len(result) - 1] == ActionHeartbeat
+//@   ensures coordinationHeartbeatProbability == 0.0625
+
+//@ func coordinationExecutor.getLeader
+//@   property C22
+//@   deterministic
+//@   requires ce.coordinatedWallet.signingGroupOperators.len >= 1
+//@   ensures [leader-is-an-operator] exists i int :: 0 <= i && i < len(ce.coordinatedWallet.signingGroupOperators) && ce.coordinatedWallet.signingGroupOperators[i] == result
+//@   loop 1 invariant forall k int :: 0 <= k && k < len(uniqueOperators) ==> uniqueOperators[k] in rangecoll1
+//@   loop 1 invariant forall x chain.Address :: x in visited1 ==> (exists k int :: 0 <= k && k < len(uniqueOperators) && uniqueOperators[k] == x)
